@@ -341,3 +341,51 @@ def fresh_per_round(R, ctx, rid):
         R.ob(rid, fn, "visited:" + site, bool(in_round), "a fresh set per changed type" if in_round else
              "the `visited` set handed to call_type_observers is %s: it is shared between the walks of different changed types" %
              ("created outside the loop round" if fresh else "not created here"), cs.loc())
+
+
+def blocks_cursor(R, ctx, rid):
+    Y = ctx.yrs
+    fns = [f for p, f in Y.fns.items() if re.search(r"id_set::Blocks(<.*>)? as yrs::iter::TxnIterator>::next$", p)]
+    if not fns:
+        raise AnchorLost("<yrs::id_set::Blocks as TxnIterator>::next")
+    fn = fns[0]
+    v = FnView(fn)
+    R.rule(rid, "R-PROV the delete-set block walk advances one block per block it yields: in <Blocks as TxnIterator>::next (behind "
+                "IdSet::blocks(): the undo manager collects a step's insertions and deletions with it, so do split_by_snapshot and "
+                "the formatting clean-up) every value stored into the cursor `current_index` is None or Some(i + 1) with i the index "
+                "of the block just read — the result of find_index for the first block of a range, the cursor itself afterwards "
+                "(`*idx += 1`). A cursor that jumps by two after a cut first block skips the block behind it whenever the caller "
+                "does not split blocks between two calls")
+    n = 0
+    for i, j, st in fn.stmts():
+        d = st["dst"]
+        if not (isinstance(d, dict) and d.get("p") and any(isinstance(x, str) and x.endswith("Blocks.current_index") for x in d["p"])):
+            continue
+        t = simp_deep(v.terms.rvalue(st["rv"], 10))
+        if t[0] == "agg" and str(t[1]).endswith("None"):
+            continue
+        n += 1
+        ok = False
+        shown = sshow(t, 6)
+        dd = mir_def(fn, st["rv"].get("use")) if isinstance(st["rv"].get("use"), dict) else ("stmt", st["rv"])
+        if dd and dd[0] == "stmt" and isinstance(dd[1].get("agg"), dict) and dd[1]["agg"].get("variant") == "Some":
+            k = mir_vkey(fn, dd[1]["ops"][0])
+            ok = isinstance(k, tuple) and k and k[0] == "Add" and k[2] == ("k", 1) and isinstance(k[1], tuple) and k[1][0] == "proj"
+            if ok:
+                base = mir_def(fn, {"c": k[1][1][1]}) if k[1][1][0] == "local" else None
+                ok = base is not None and base[0] == "call" and re.search(r"find_index$", base[1].name) is not None
+        R.ob(rid, fn, "cursor-store#%d" % n, ok, "current_index := Some(find_index(..) + 1)" if ok else
+             "current_index := %s — not Some(index of the block just read + 1)" % shown, "%s:%s" % (fn.file, st["line"]))
+    R.floor(rid, "non-None stores into Blocks.current_index", n, 1)
+    # the in-place step: *idx += 1
+    steps = []
+    for i, j, st in fn.stmts():
+        rv = st["rv"]
+        if str(rv.get("bin", "")).startswith("Add"):
+            a, b = mir_vkey(fn, rv["a"]), mir_vkey(fn, rv["b"])
+            t = simp_deep(v.terms.operand(rv["a"], 8))
+            if term_has_field(t, "Blocks.current_index"):
+                steps.append((i, st, b))
+    R.floor(rid, "in-place steps of the cursor", len(steps), 1)
+    for k, (i, st, b) in enumerate(steps):
+        R.ob(rid, fn, "cursor-step#%d" % k, b == ("k", 1), "*idx += 1" if b == ("k", 1) else "*idx += %s" % (b,), "%s:%s" % (fn.file, st["line"]))
